@@ -1,15 +1,18 @@
 #!/bin/sh
 # Re-applies every kept seeded change to a scratch worktree of /repo HEAD and runs the quick
-# check of its property against it.  Prints one line per seed.  usage: check_seeds.sh [scale]
+# check of its property against it (or the check named in <seed>/check_with when the change
+# belongs to a sibling property's domain).  Prints one line per seed.  usage: check_seeds.sh [scale] [glob]
 S=${1:-0.5}
+G=${2:-C*}
 cd "$(dirname "$0")/.."
-for d in seeded/C*; do
+for d in seeded/$G; do
   n=$(basename $d); p=$(echo $n | cut -c1-3)
+  [ -f $d/check_with ] && p=$(cat $d/check_with)
   WT=/tmp/seedchk_$$_$n
   git -C /repo worktree add -q --detach $WT HEAD || { echo "$n worktree-failed"; continue; }
   if git -C $WT apply $PWD/$d/patch.diff 2>/dev/null; then
     VERIF_SRC=$WT/src /venv/bin/python -B run.py $p --tier quick --scale $S > /tmp/seedchk_$n.log 2>&1; rc=$?
-    echo "$n check_rc=$rc $(grep -c VIOLATION /tmp/seedchk_$n.log) violations"
+    echo "$n [$p] check_rc=$rc $(grep -c VIOLATION /tmp/seedchk_$n.log) violations"
   else
     echo "$n PATCH-DOES-NOT-APPLY"
   fi
